@@ -12,6 +12,7 @@ finite scope), merges both into /verif/evidence/<id>.json and decides:
   exit 3  engine crash
 """
 import argparse
+import re
 import json
 import os
 import subprocess
@@ -99,7 +100,9 @@ def run_proof(prop, tier, cfg):
 
 def match_known(known, prop, failure):
     for kf in known.get("findings", []):
-        if kf["property"] == prop and kf["kind"] == failure.get("kind"):
+        if kf["property"] != prop:
+            continue
+        if kf["kind"] == failure.get("kind") or (kf.get("kind_regex") and re.fullmatch(kf["kind_regex"], failure.get("kind", ""))):
             return kf
     return None
 
